@@ -187,11 +187,6 @@ func c04Generate(id int, seed uint64, region string, steps int) *c04hist {
 		var o *c04op
 		if region != "" && (i == steps/3 || i == (2*steps)/3 || r.chance(12)) {
 			o = g.regionOp(&out)
-			if o != nil && c04OpInMultiDirect(o) && o.Lvs[0].T == c04TAny {
-				// doComposite decides "destination is an interface" from the first left-hand operand of
-				// the statement: outside the (untyped) Coq grammar
-				o.Unmodelled = true
-			}
 		}
 		if o == nil {
 			o = g.next(2, &out)
@@ -206,7 +201,12 @@ func c04Generate(id int, seed uint64, region string, steps int) *c04hist {
 		}
 	}
 	for _, o := range h.Ops {
-		if c04AnyOp(o, func(x *c04op) bool { return x.K == "sugar" || x.Unmodelled }) {
+		if c04AnyOp(o, func(x *c04op) bool {
+			// doComposite decides "destination is an interface" from the FIRST left-hand operand of the
+			// statement (destType): a compiled-away tuple assignment whose first destination has static
+			// type interface{} lies outside the (untyped) Coq grammar, wherever it was generated
+			return x.K == "sugar" || x.Unmodelled || (c04OpInMultiDirect(x) && x.Lvs[0].T == c04TAny)
+		}) {
 			h.Modelled = false
 		}
 	}
